@@ -411,7 +411,12 @@ func rC10CopyOptions(w *World, r *Report) {
 			}
 			return false
 		}
-		helpExcluded := notHelpAt(mu.Block(), nil)
+		// the child whose table is written
+		var tableOwner ssa.Value
+		if ob, ok := loadOfField(mu.Map, fCO); ok {
+			tableOwner = ob
+		}
+		helpExcluded := notHelpAt(mu.Block(), tableOwner)
 		if !helpExcluded {
 			// the children were filtered into a list first: every element of that list was put there under the test
 			if child, ok := loadOfField(mu.Map, fCO); ok {
